@@ -10,7 +10,7 @@ TB = ('rustc name/type resolution and MIR construction; pinned dependency crates
 CLAIMS = {
     'C01': dict(
         technique='kind-directed abstract evaluation of MIR (constant propagation over the finite SyntaxKind lattice) of every dispatcher and child-dispatch loop, per grammar child kind; truth tables for paren removal / optional parens and the mode they establish; who-may-reorder',
-        text='Partial: decides total type-directed dispatch, that no significant child kind is dropped at any dispatch site, spelling agreement, the order/disambiguation clauses, and that optional delimiters establish the mode their body is converted in (statement boundaries). Quantifies over (dispatch site x grammar kind) pairs instead of inputs, including pairs no fixture contains. Does not decide the round trip. Found and repaired the in / not in chain defect.',
+        text='Partial: decides total type-directed dispatch, that no significant child kind is dropped at any dispatch site, spelling agreement, the order/disambiguation clauses, and that optional delimiters establish the mode their body is converted in (statement boundaries). Quantifies over (dispatch site x grammar kind) pairs instead of inputs, including pairs no fixture contains. Does not decide the round trip. Found and repaired the in / not in chain defect and F15 (parentheses of a literal after #).',
         design_ref='DESIGN.md §2 C01'),
     'C04': dict(
         technique='abstract evaluation of child sequences at every comment-emitting site (state carried between iterations): <LineComment, Space+nl>, <LineComment, Space+nl, X> where the terminator is a queued item, <LineComment, END> where only part of the children is iterated; the list printer under the forced layout; shape check of the line-break text predicate; optional-delimiter helpers per mode',
